@@ -883,8 +883,13 @@ class AdvGen(gen_prog.ProgGen):
             right = self.num(scope, d + 1) if op != '**' else gen_prog.N(r.choice([2, 0.5, -1, 3, 0]))
             return gen_prog.B(op, self.num(scope, d + 1), right)
         if r.random() < 0.08:
-            return gen_prog.C(r.choice(['numberParseInt', 'mathSqrt', 'mathLn', 'arrayGet', 'stringCharCodeAt', 'datetimeNew', 'mathRound']),
-                              *[self.num(scope, d + 1) for _ in range(r.randint(0, 3))])
+            fname = r.choice(['numberParseInt', 'mathSqrt', 'mathLn', 'arrayGet', 'stringCharCodeAt', 'datetimeNew', 'mathRound'])
+            args = [self.num(scope, d + 1) for _ in range(r.randint(0, 3))]
+            if fname == 'mathRound' and len(args) >= 2:
+                # (the digit count stays a small literal: 10 ** digits with a host integer of 400 digits is single-call resource exhaustion,
+                #  which no check drives the implementation into - section 8)
+                args[1] = gen_prog.N(r.choice([0, 2, -1, 25, 1.5]))
+            return gen_prog.C(fname, *args)
         return super().num(scope, d)
 
 
